@@ -1,12 +1,12 @@
 SPECIFICATION Spec
 CONSTANTS
-  EFlows = {"A", "B"}
+  EFlows = {"A"}
   NFlows = {"C"}
-  MaxEvents = 10
-  MaxConns = 6
-  MaxT6 = 2
-  MaxPk = 8
-  RRs = {"cpr0"}
+  MaxEvents = 4
+  MaxConns = 4
+  MaxT6 = 1
+  MaxPk = 4
+  RRs = {"cpr0", "g1", "g2"}
   ScopeSensitive = FALSE
-  Faults = {"wfail", "rexit", "dialfail", "tick"}
+  Faults = {"wfail"}
 INVARIANTS NoDup Conservation HeldAreInitials BatchOrdered CompleteAtEnd NameRoutes OneTransport Emit
